@@ -1,0 +1,20 @@
+//go:build verif
+
+package fzf
+
+// Verification hooks (build tag verif): the unexported entry points of Reader exactly as core.go calls them
+// (`go reader.restart(command, environ, readyChan); <-readyChan`, `go reader.ReadSource(...); <-readyChan`,
+// `reader.terminate()`).  No logic of their own.
+
+// VerifRestart is reader.restart(commandSpec{command, tempFiles}, environ, readyChan).
+func (r *Reader) VerifRestart(command string, tempFiles []string, environ []string, readyChan chan bool) {
+	r.restart(commandSpec{command, tempFiles}, environ, readyChan)
+}
+
+// VerifReadSource is reader.ReadSource with no walker roots / options / ignores.
+func (r *Reader) VerifReadSource(inputChan chan string, initCmd string, initEnv []string, readyChan chan bool) {
+	r.ReadSource(inputChan, nil, walkerOpts{}, nil, initCmd, initEnv, readyChan)
+}
+
+// VerifTerminate is reader.terminate().
+func (r *Reader) VerifTerminate() { r.terminate() }
